@@ -249,9 +249,11 @@ example : rs1024Verify csShamir ([1, 2, 3] ++ rs1024Create csShamir [1, 2, 3]) =
 example : Good [(0, [1, 2]), (1, [3, 4]), (255, [5, 6])] 2 :=
   ⟨by decide, by decide, by decide, by decide⟩
 
-/-! ### not proved (correspondence only) -/
+/-! ### deepening
 
--- GOAL (not proved): Share.mnemonic s = Spec.Slip39.encodeShare (fields of s) and Share.parse = Spec.Slip39.decodeShare for exponent < 16 (bit-list layout of the standard vs. embit's integer arithmetic); checked on every run by the ops share.encode.spec / share.decode.spec
--- GOAL (not proved): group (two-level) recovery of ShareSet.recover equals the standard's combination for exact-threshold sets; exercised by the official vectors and harness-built group sets (correspondence with the model only)
+  The two former GOAL lines of this file are theorems of `Props/C16X.lean` now: `share_mnemonic_eq_spec`,
+  `share_parse_eq_spec`, `share_roundtrip_spec` (share text = bit layout of the standard) and
+  `group_recover_eq_spec`, `two_level_sufficient_set_recovers`, `fewer_groups_refused`, `fewer_members_refused`
+  (two-level recovery). -/
 
 end Embit.Props.C16
